@@ -364,6 +364,9 @@ def dry_runs():
         yield 'W4_accessors', dict(op=op, a=2, b=9, c=-1, d=2, **st)
 
 
+PROBES = ['screen']      # representation probes (harness/probes.py) this harness depends on
+
+
 MANIFEST_ENTRY = {
     'level_text': 'Bounded symbolic verification of every documented pexpect.screen operation against a reference '
                   'grid written from the docstrings: 3x4 screen with distinct cells, arbitrary valid cursor / saved '
